@@ -72,13 +72,35 @@ def gif_bytes(n: int) -> bytes:
     return _GIFS[n]
 
 
-def mk_image(n: int, width: int, cls: str = "block"):
+_TMP = [None]
+
+
+def gif_path(n: int) -> str:
+    """the n-frame GIF as a file in a harness temp dir (removed at exit)"""
+    import atexit
+    import shutil
+    import tempfile
+
+    if _TMP[0] is None:
+        _TMP[0] = tempfile.mkdtemp(prefix="tiv-c09-")
+        atexit.register(shutil.rmtree, _TMP[0], ignore_errors=True)
+    path = os.path.join(_TMP[0], f"anim{n}.gif")
+    if not os.path.exists(path):
+        with open(path, "wb") as f:
+            f.write(gif_bytes(n))
+    return path
+
+
+def mk_image(n: int, width: int, cls: str = "block", src: str = "pil"):
     env.reset_env()
     env.set_env(cell_size=None if cls == "block" else (4, 8))
     term_image.set_cell_ratio(0.5)
     klass = CLASSES[cls]
     if cls != "block":
         klass.forced_support = True  # controlled environment: no supporting terminal needed
+    if src == "file":
+        # file-sourced: every render opens the file; the iterator keeps ONE open image for its whole life
+        return klass.from_file(gif_path(n), width=width)
     return klass(Image.open(io.BytesIO(gif_bytes(n))), width=width)
 
 
@@ -104,10 +126,10 @@ def expect_table(n: int, cls: str = "block", spec: str = "") -> dict[str, tuple[
     return _EXPECT[(n, cls, spec)]
 
 
-def run_image_iter(n, rep, cache, width, seekpos, ops, cls="block", spec="") -> str:
+def run_image_iter(n, rep, cache, width, seekpos, ops, cls="block", spec="", src="pil") -> str:
     import zlib
     tab = expect_table(n, cls, spec) if n >= 2 else {}
-    img = mk_image(n, width, cls)
+    img = mk_image(n, width, cls, src)
     if seekpos:
         img.seek(seekpos)
     count = [0]
@@ -216,13 +238,37 @@ def run_pair_real(c, ops):
     return " || ".join(out), logs
 
 
-def stretch_rerender(c, ops, calls_per_op):
-    """cached definite iterator: within a stretch without set_frame_duration/set_render_args/
-    set_render_size, no frame may be rendered twice.  → offending (op index, frame) or None"""
+def settings_after(cur, op, accepted):
+    """(size, duration, args) — as values — after a set operation the iterator accepted"""
+    size, dur, args = cur
+    if not accepted:
+        return cur
+    if op[0] == "size":
+        return ((int(op[1]), int(op[2])), dur, args)
+    if op[0] == "dur":
+        return (size, "D" if op[1] == "D" else int(op[1]), args)
+    if op[0] == "args":
+        a = {"own": lambda: (int(op[2]), int(op[3])), "base": lambda: (int(op[2]), 0), "root": lambda: (0, 0)}[op[1]]()
+        return (size, dur, a)
+    return cur
+
+
+def stretch_rerender(c, ops, calls_per_op, accepted):
+    """cached definite iterator: while size, duration and render args are unchanged no frame may be
+    rendered twice.  "Unchanged" is about values: a setter called with a value equal to the current one
+    (a new `Size(*current)`, an equal `RenderArgs` built anew, an equal int) changes nothing and does not
+    start a new stretch.  → offending (op index, frame) or None"""
+    a0 = c["args"]
+    cur = ((int(c["size"][0]), int(c["size"][1])), "D" if c["dur"] == "D" else int(c["dur"]),
+           (0, 0) if a0 is None else {"own": lambda: (int(a0[1]), int(a0[2])), "base": lambda: (int(a0[1]), 0),
+                                      "root": lambda: (0, 0)}.get(a0[0], lambda: (0, 0))())
     seen = set()
-    for i, (op, calls) in enumerate(zip(ops, calls_per_op)):
+    for i, (op, calls, ok) in enumerate(zip(ops, calls_per_op, accepted)):
         if op[0] in ("dur", "args", "size"):
-            seen = set()
+            new = settings_after(cur, op, ok)
+            if new != cur:
+                seen = set()
+            cur = new
         for q in calls:
             off = q.split(" ")[0]
             if off in seen:
@@ -276,7 +322,10 @@ class C09(Property):
             f"def renderableIterCache : Bool := {'true' if iter_cached else 'false'}\n"
             "end TIV.C09.Generated\n"
         )
-        return {"TIV/C09/Generated.lean": body}
+        # C09's theorems are built on the C08 model: its constants are regenerated here too
+        files = dict(c08.C08().gen_constants())
+        files["TIV/C09/Generated.lean"] = body
+        return files
 
     # -- generator --------------------------------------------------------------------
     def generate(self, rng: random.Random, tier: str):
@@ -351,11 +400,27 @@ class C09(Property):
                 ops += [["size", rng.choice(WIDTHS)]] + ([["seek", rng.randrange(n)]] if rng.random() < 0.3 else []) \
                     + [["next"]] * rng.choice([1, n, n + 1])
             rep = rng.choice([2, 3, -1, -1]) if rep == 1 else rep
+        src = "file" if (n >= 2 and rng.random() < 0.45) else "pil"
+        if src == "file" and not malformed and rng.random() < 0.6:
+            # replay pass of the cache with >= 2 re-renders: frames skipped by seek() in the first loop (holes),
+            # or the image size changed in a later loop, then at least two frames
+            n = max(n, 3)
+            rep = rng.choice([2, 3, -1, -1])
+            cache = rng.choice([["b", 1], ["n", n], ["n", 100]])
+            seekpos = 0
+            if rng.random() < 0.5:
+                skip_to = rng.randrange(2, n)                 # frames 1 .. skip_to-1 are never rendered in loop 1
+                ops = [["next"], ["seek", skip_to]] + [["next"]] * (n - skip_to + 1) + [["next"]] * rng.choice([n, n + 2])
+            else:
+                ops = [["next"]] * (n + rng.choice([1, 2])) + [["size", rng.choice([w for w in WIDTHS if w != width])]] \
+                    + [["next"]] * rng.choice([2, 3, n + 1])
         line = f"ipair {n} {rep} {toks(cache)} {width} {seekpos} {len(ops)}" + "".join(" " + toks(o) for o in ops)
-        d = {"n": n, "rep": rep, "cache": cache, "width": width, "seekpos": seekpos, "ops": ops, "cls": cls, "spec": spec}
+        d = {"n": n, "rep": rep, "cache": cache, "width": width, "seekpos": seekpos, "ops": ops, "cls": cls, "spec": spec,
+             "src": src}
         nexts = sum(1 for o in ops if o[0] == "next")
-        kind = "ipair-malformed" if malformed else "ipair" if cls == "block" else \
-            f"ipair-{cls}" + ("+style" if "+" in spec else "")
+        kind = "ipair-malformed" if malformed else ("ipair" if cls == "block" else
+                                                     f"ipair-{cls}" + ("+style" if "+" in spec else "")) + \
+            ("+file" if src == "file" else "")
         return Case(line, d, kind, nexts > n and rep != 1)
 
     def gen_hashy(self, rng, tier):
@@ -375,20 +440,36 @@ class C09(Property):
              "stop_at": None, "fail_at": None, "ctor": rng.choice([0, 1]), "finalize": 1,
              "pyvar": rng.choice([0, 1, 1, 2, 3])}
         ops = []
+        cur_args = list(c["args"][1:]) if c["args"] else [0, 0]
+        cur_dur, cur_size = c["dur"], list(c["size"])
         for _ in range(rng.choice([2, 3, 4, 6] if tier == "quick" else [2, 4, 6, 10])):
             k = rng.random()
-            if k < 0.6:
+            if rng.random() < 0.3:
+                # a setter called with a value EQUAL to the current one (always a new object: a fresh RenderArgs /
+                # Size, an int parsed anew): nothing changes, cached frames stay valid
+                if k < 0.5:
+                    ops.append(["args", "own"] + cur_args)
+                elif k < 0.75:
+                    ops.append(["dur", cur_dur])
+                else:
+                    ops.append(["size"] + cur_size)
+            elif k < 0.6:
                 which = rng.random()
                 if which < 0.4:
-                    ops.append(["args", "own", rng.choice(ints), rng.choice([0, 0, 1, rng.choice(ints)])])
+                    cur_args = [rng.choice(ints), rng.choice([0, 0, 1, rng.choice(ints)])]
+                    ops.append(["args", "own"] + cur_args)
                 elif which < 0.6:
-                    ops.append(["args", "base", rng.choice(ints)])
+                    cur_args = [rng.choice(ints), 0]
+                    ops.append(["args", "base", cur_args[0]])
                 else:
-                    ops.append(["args", "own", rng.choice([0, 1]), rng.choice(ints)])
+                    cur_args = [rng.choice([0, 1]), rng.choice(ints)]
+                    ops.append(["args", "own"] + cur_args)
             elif k < 0.8:
-                ops.append(["dur", rng.choice(durs)])
+                cur_dur = rng.choice(durs + [300, 1000])
+                ops.append(["dur", cur_dur])
             else:
-                ops.append(["size"] + rng.choice(sizes))
+                cur_size = list(rng.choice(sizes))
+                ops.append(["size"] + cur_size)
             # revisit: a whole loop, or seek back and a few frames
             if rng.random() < 0.6:
                 ops += [["next"]] * rng.choice([n, n, n + 1])
@@ -439,8 +520,9 @@ class C09(Property):
             return run_pair_real(d["cfg"], d["ops"])[0]
         if op == "ipair":
             cls, spec = d.get("cls", "block"), d.get("spec", "")
-            a = run_image_iter(d["n"], d["rep"], d["cache"], d["width"], d["seekpos"], d["ops"], cls, spec)
-            b = run_image_iter(d["n"], d["rep"], ["b", 0], d["width"], d["seekpos"], d["ops"], cls, spec)
+            src = d.get("src", "pil")
+            a = run_image_iter(d["n"], d["rep"], d["cache"], d["width"], d["seekpos"], d["ops"], cls, spec, src)
+            b = run_image_iter(d["n"], d["rep"], ["b", 0], d["width"], d["seekpos"], d["ops"], cls, spec, src)
             return a + " || " + b
         if op == "draw":
             return run_draw_real(d["n"], d["loops"], d["cache"], d["m"])[0]
@@ -510,7 +592,8 @@ class C09(Property):
                 i = next((j for j in range(min(len(fa), len(fb))) if fa[j] != fb[j]), min(len(fa), len(fb)))
                 opn = d["ops"][i][0] if i < len(d["ops"]) else "?"
                 return Failure(f"image-iterator/cached-differs/{opn}",
-                               f"ImageIterator({CLASSES[d.get('cls', 'block')].__name__}, repeat={d['rep']}, "
+                               f"ImageIterator({CLASSES[d.get('cls', 'block')].__name__}"
+                               f"{'.from_file' if d.get('src') == 'file' else ''}, repeat={d['rep']}, "
                                f"format_spec={d.get('spec', '')!r}) cached={toks(d['cache'])} vs uncached differ at op #{i} {opn}: "
                                f"`{fa[i] if i < len(fa) else None}` vs `{fb[i] if i < len(fb) else None}`")
             return None
@@ -571,8 +654,10 @@ class C09(Property):
                 ops = [["next"]] * (n + 1)
                 for w in wseq:
                     ops += [["size", w]] + [["next"]] * n
-                for cls, spec in (("block", ""), ("kitty", "+Wz-7m1c0"), ("kitty", "+m1c9"), ("iterm2", "+Wm1c0"), ("iterm2", "+c3")):
-                    d = {"n": n, "rep": -1, "cache": ["b", 1], "width": 2, "seekpos": 0, "ops": ops, "cls": cls, "spec": spec}
+                for cls, spec, src in (("block", "", "pil"), ("block", "", "file"), ("kitty", "+Wz-7m1c0", "pil"),
+                                       ("kitty", "+m1c9", "file"), ("iterm2", "+Wm1c0", "pil"), ("iterm2", "+c3", "file")):
+                    d = {"n": n, "rep": -1, "cache": ["b", 1], "width": 2, "seekpos": 0, "ops": ops, "cls": cls, "spec": spec,
+                         "src": src}
                     line = f"ipair {n} -1 b 1 2 0 {len(ops)}" + "".join(" " + toks(o) for o in ops)
                     case = Case(line, d, "search")
                     f = self.oracle(case, self.impl(case))
@@ -627,22 +712,23 @@ def pair_verdict(c, ops):
             return ("render-iterator/ctor-differs", f"constructor: cached → {rr_a.error}, uncached → {rr_b.error}")
         return None
     really_cached = bool(rr_a.it._cached)
-    per_op = []
+    per_op, accepted = [], []
     try:
         for i, op in enumerate(ops):
             before = len(rr_a.r.calls)
             a = rr_a.do(op)
             b = rr_b.do(op)
             per_op.append(rr_a.r.calls[before:])
+            accepted.append(a.startswith("ok"))
             if a != b:
                 return (f"render-iterator/cached-differs/{c08.op_name(op)}",
                         f"cache={toks(c['cache'])} vs cache off differ at op #{i} {toks(op)}: `{a}` vs `{b}`")
         if really_cached:
-            bad = stretch_rerender(c, ops, per_op)
+            bad = stretch_rerender(c, ops, per_op, accepted)
             if bad:
                 return ("render-iterator/rerender-in-stretch",
-                        f"cached iterator rendered frame {bad[1]} a second time at op #{bad[0]} although "
-                        f"size/duration/args had not changed since it was cached")
+                        f"cached iterator rendered frame {bad[1]} a second time at op #{bad[0]} ({toks(ops[bad[0]])}) although "
+                        f"the values of size/duration/args had not changed since it was cached")
     finally:
         rr_a.finish()
         rr_b.finish()
